@@ -113,6 +113,16 @@ C["C19"] = dict(assumptions=["torrent built by the real newTorrent and driven to
     H("ZZPrivateNoLeak", "torrent", "private or public 2-piece torrent, every combination of PEXEnabled/DHTEnabled/DHT node present: extension handshake advertising ut_pex+ut_metadata, PEX message with an arbitrary address, DHT peer list, port message, magnet export, identity strings", T(30, 900, flags=["-nospawn"]), T(30, 900, flags=["-nospawn"]), replay="model"),
 ])
 
+C["C03"]["harnesses"] += [
+    H("ZZRequestStep", "torrent", "request handler on a real torrent (2 pieces, arbitrary Done bits) and real peers: arbitrary 32-bit (index,begin,length), choking / fast extension / allowed-fast membership arbitrary: data queued only for valid requests of pieces we have, honouring choke/allowed-fast; queued request == received request; out-of-range closes that peer only", T(40, 900, flags=["-nospawn"]), T(40, 900, flags=["-nospawn"]), replay="model"),
+]
+C["C03"]["assumptions"] += ["torrent fixture: real newTorrent/startPeer, peer writer replaced by a recorder of SendMessage/SendPiece"]
+C["C08"]["harnesses"] += [
+    H("ZZMessageTotal", "torrent", "any single message (18 kinds, arbitrary field values; metadata size <= 3 blocks) from a real connected peer in each torrent state (metadata unknown / allocating / downloading / stopping): no panic or crash, only the sender may be dropped, the other peer and the torrent state are untouched", T(40, 1800, 8, 6, flags=["-nospawn"]), None, replay="model"),
+    H("ZZMessageTwo", "torrent", "two arbitrary messages in a row from one peer while downloading", None, T(40, 3600, 32, 8, flags=["-nospawn"]), replay="model"),
+]
+C["C08"]["assumptions"] += ["torrent fixture: real newTorrent/startPeer; goroutines not run (ghost workers), peer writer / resume db / DHT node replaced by recorders"]
+
 for pid, spec in C.items():
     spec = dict(property=pid, **spec)
     json.dump(spec, open(os.path.join(D, pid + ".json"), "w"), indent=1)
